@@ -122,7 +122,16 @@ def opBB (args : List String) (impl : String) : String × String :=
   | ["const"] => (constM, expect constS impl)
   | _ => ("badop", "-")
 
-def probes (f : Nat → Bool) : String := String.ofList ((List.range 71).map fun n => if f n then '1' else '0')
+/-- indices probed at the checked index constructors: 0..70 and values whose low bits look like a valid index -/
+def extraProbes : List Nat :=
+  [127, 128, 191, 192, 255, 256, 257, 300, 319, 320, 321, 511, 512, 575, 576, 1023, 1024, 4095, 4096, 65535, 65536, 65599,
+   65600, 16777216, 4294967295, 4294967296, 4294967297, 4294967359, 9223372036854775808, 18446744073709551615]
+
+def probes (f : Nat → Bool) : String :=
+  String.ofList ((List.range 71 ++ extraProbes).map fun n => if f n then '1' else '0')
+
+/-- the 71 probes 0..70 alone (the colour constructor is probed by character, not by index) -/
+def probes71 (f : Nat → Bool) : String := String.ofList ((List.range 71).map fun n => if f n then '1' else '0')
 
 def opConv (ty : String) (impl : String) : String × String :=
   let ch (n : Nat) : String := String.singleton (Char.ofNat n)
@@ -130,10 +139,10 @@ def opConv (ty : String) (impl : String) : String × String :=
   match ty with
   | "file" =>
     (String.intercalate "," ((List.finRange 8).map fun f => s!"{f.val}:{ch (Impl.fileByte f)}") ++ " " ++ probes (· < 8),
-     expect "0:a,1:b,2:c,3:d,4:e,5:f,6:g,7:h 11111111000000000000000000000000000000000000000000000000000000000000000" impl)
+     expect "0:a,1:b,2:c,3:d,4:e,5:f,6:g,7:h 11111111000000000000000000000000000000000000000000000000000000000000000000000000000000000000000000000" impl)
   | "rank" =>
     (String.intercalate "," ((List.finRange 8).map fun r => s!"{r.val}:{ch (Impl.rankByte r)}") ++ " " ++ probes (· < 8),
-     expect "0:8,1:7,2:6,3:5,4:4,5:3,6:2,7:1 11111111000000000000000000000000000000000000000000000000000000000000000" impl)
+     expect "0:8,1:7,2:6,3:5,4:4,5:3,6:2,7:1 11111111000000000000000000000000000000000000000000000000000000000000000000000000000000000000000000000" impl)
   | "coord" =>
     let files := "abcdefgh".toList
     let e := String.intercalate "," ((List.range 64).map fun i =>
@@ -143,13 +152,13 @@ def opConv (ty : String) (impl : String) : String × String :=
     let names := ["Pawn", "King", "Knight", "Bishop", "Rook", "Queen"]
     let m := String.intercalate "," (Piece.all.map fun p => s!"{p.idx}:{names.getD p.idx "?"}") ++ " "
       ++ probes fun n => (Piece.ofIdx n).isSome
-    (m, expect "0:Pawn,1:King,2:Knight,3:Bishop,4:Rook,5:Queen 11111100000000000000000000000000000000000000000000000000000000000000000" impl)
+    (m, expect "0:Pawn,1:King,2:Knight,3:Bishop,4:Rook,5:Queen 11111100000000000000000000000000000000000000000000000000000000000000000000000000000000000000000000000" impl)
   | "cell" =>
     (String.intercalate "," (Cell.all.map fun c => s!"{c.val}:{ch (Impl.cellByte c)}") ++ " " ++ probes (· < 13),
-     expect "0:.,1:P,2:K,3:N,4:B,5:R,6:Q,7:p,8:k,9:n,10:b,11:r,12:q 11111111111110000000000000000000000000000000000000000000000000000000000" impl)
+     expect "0:.,1:P,2:K,3:N,4:B,5:R,6:Q,7:p,8:k,9:n,10:b,11:r,12:q 11111111111110000000000000000000000000000000000000000000000000000000000000000000000000000000000000000" impl)
   | "color" =>
-    (s!"0:{ch (Impl.colorByte .white)},1:{ch (Impl.colorByte .black)} " ++ probes fun n => (Impl.colorOfByte (n + 33)).isSome,
-     expect ("0:w,1:b " ++ probes fun n => n + 33 = 98 || n + 33 = 119) impl)
+    (s!"0:{ch (Impl.colorByte .white)},1:{ch (Impl.colorByte .black)} " ++ probes71 fun n => (Impl.colorOfByte (n + 33)).isSome,
+     expect ("0:w,1:b " ++ probes71 fun n => n + 33 = 98 || n + 33 = 119) impl)
   | "rights" =>
     let e := "0:-,1:Q,2:K,3:KQ,4:q,5:Qq,6:Kq,7:KQq,8:k,9:Qk,10:Kk,11:KQk,12:kq,13:Qkq,14:Kkq,15:KQkq "
       ++ probes (· < 16)
